@@ -1245,6 +1245,81 @@ def corr_entry_points(ctx, rng, n_cases, broken):
                     key="entry:%s" % name.split("(")[0])
 
 
+
+def mesh_direction_probe(ctx, rng, thorough):
+    """SRF.mesh(mesh, direction=...) on a mesh with 3-D point coordinates: for EVERY ordered selection of `dim` mesh axes — as a
+    string of letters in every order ("zx", "yx", "zyx", ...) and as an index list ([2, 0], ...) — and anisotropic, rotated models,
+    the field written to the mesh must equal the plain call on the selected coordinates IN THE GIVEN ORDER (fresh objects, same
+    seed; deterministic, 1e-12).  points='points' and 'centroids', scalar and vector fields.  Documented rejections (duplicate letter,
+    unknown letter, fewer directions than model dimensions) must raise ValueError."""
+    import itertools
+    import meshio
+    import gstools as gs
+    n = 0
+    for dim in (1, 2, 3):
+        for gname in ("RandMeth", "VectorField") if dim > 1 else ("RandMeth",):
+            kind = ["Gaussian", "Exponential"][int(rng.integers(2))]
+            kw = dict(dim=dim, var=float(rng.uniform(0.5, 2.0)), len_scale=float(rng.uniform(2.0, 6.0)))
+            if dim > 1:
+                # strongly anisotropic and rotated: a permutation of the axes changes every value
+                kw.update(anis=[float(x) for x in rng.uniform(0.1, 0.4, size=dim - 1)], angles=[float(x) for x in rng.uniform(0.3, 1.2, size=dim * (dim - 1) // 2)])
+            m = getattr(gs, kind)(**kw)
+            seed = int(rng.integers(1, 2 ** 31 - 1))
+            npt = int(rng.integers(5, 9))
+            pts3 = rng.uniform(-8, 8, size=(npt, 3))
+            mesh = meshio.Mesh(pts3, [("tetra", np.array([[i, i + 1, i + 2, i + 3] for i in range(npt - 3)])), ("triangle", np.array([[0, 2, 4]]))])
+            cent = np.vstack([pts3[c.data].mean(axis=1) for c in mesh.cells])
+            mk = lambda: gs.SRF(m, generator=gname, mode_no=10, seed=seed)
+            sels = list(itertools.permutations(range(3), dim))
+            if not thorough and len(sels) > 4:
+                # quick: all NON-alphabetical orders would be 3 (dim 2) / 5 (dim 3): take every selection for dim 2, 4 of 6 for dim 3
+                sels = sels if dim == 2 else [sels[i] for i in rng.permutation(len(sels))[:4]]
+            for sel in sels:
+                for form in ("letters", "indices"):
+                    direction = "".join("xyz"[i] for i in sel) if form == "letters" else list(sel)
+                    for points in ("points", "centroids"):
+                        src = pts3 if points == "points" else cent
+                        n += 1
+                        ctx.count(("mesh-direction", dim, gname, sel, form, points), hist=dict(mesh_direction="".join("xyz"[i] for i in sel), mesh_direction_form=form))
+                        case = dict(cls=kind, model_kwargs=kw, generator=gname, seed=seed, direction=direction, points=points, mesh_points=pts3.tolist())
+                        try:
+                            srf = mk()
+                            srf.mesh(mesh, points=points, direction=direction, name="f")
+                            if points == "points":
+                                got = np.asarray(mesh.point_data["f"], dtype=float)
+                            else:
+                                got = np.concatenate([np.asarray(a, dtype=float) for a in mesh.cell_data["f"]])
+                            if gname == "VectorField":
+                                got = got.T          # mesh data of vector fields are stored point-major
+                            ref = np.asarray(mk()([src[:, i] for i in sel]), dtype=float)
+                        except Exception as e:
+                            ctx.violation("probe: mesh direction", "SRF.mesh(direction=%r, points=%r) raised %s: %s" % (direction, points, type(e).__name__, str(e)[:160]),
+                                          case, key="mesh-direction:%s:exception" % form)
+                            continue
+                        if got.shape != ref.shape or not np.all(np.abs(got - ref) <= 1e-12 * (np.max(np.abs(ref)) + 1e-300)):
+                            ctx.violation("probe: mesh direction",
+                                          "%s / %s(%s): srf.mesh(mesh, points=%r, direction=%r) differs from srf((coordinates %s of the mesh %s, in this order)) for the "
+                                          "same seed: %s vs %s — the anisotropy axes of the field lie along the wrong mesh axes" % (
+                                              gname, kind, kw, points, direction, list(sel), points, got.ravel()[:3].tolist(), ref.ravel()[:3].tolist()),
+                                          dict(case, mesh_field=got.ravel().tolist(), plain_field=ref.ravel().tolist()),
+                                          key="mesh-direction:%s:dim=%d" % (form, dim))
+                            break
+            # documented rejections
+            for bad in (["xx", "xyy", "xa", "", "xyzx"] + (["x"] if dim > 1 else []) + (["xy"] if dim > 2 else [])):
+                n += 1
+                ctx.count(("mesh-direction-reject", dim, bad), hist=dict(mesh_direction="reject:" + bad))
+                try:
+                    mk().mesh(mesh, points="points", direction=bad, name="f")
+                    ctx.violation("probe: mesh direction", "SRF.mesh(direction=%r) on a %d-D model did not raise the documented ValueError" % (bad, dim),
+                                  dict(cls=kind, model_kwargs=kw, direction=bad), key="mesh-direction:reject:%s" % bad)
+                except ValueError:
+                    pass
+                except Exception as e:
+                    ctx.violation("probe: mesh direction", "SRF.mesh(direction=%r) raised %s instead of ValueError: %s" % (bad, type(e).__name__, str(e)[:120]),
+                                  dict(cls=kind, model_kwargs=kw, direction=bad), key="mesh-direction:reject:%s:%s" % (bad, type(e).__name__))
+    return n
+
+
 # ----------------------------------------------------------------------------------------- scale equivariance
 ARMED_SCALES = (-20, -10, 10, 14)          # L = 2^e: exact in floating point; 2^-20 ~ 1e-6, 2^14 ~ 1.6e4
 BROKEN_SCALES = (20, 27)                   # known finding: absolute |k| < 1e-8 masks (spectral_rad_pdf, Integral, HyperSpherical, hankel)
@@ -1623,6 +1698,9 @@ def run(ctx):
         t0 = time.time()
         n_s, n_f = scale_probe(ctx, rng, thorough)
         C.log("[C01] scale equivariance: %d spectral (class, dim, option, L) comparisons, %d field comparisons in %.1fs" % (n_s, n_f, time.time() - t0))
+        t0 = time.time()
+        n_m = mesh_direction_probe(ctx, rng, thorough)
+        C.log("[C01] mesh directions: %d srf.mesh(...) calls (every ordered axis selection, letters and index lists, rejections) in %.1fs" % (n_m, time.time() - t0))
         t0 = time.time()
         n_v = value_scale_probe(ctx, rng, thorough)
         n_r = radial_dist_probe(ctx, rng)
